@@ -3459,6 +3459,8 @@ impl<'a> Parser<'a> {
     where
         F: FnMut(&mut Parser<'a>) -> Result<T, ParserError>,
     {
+        #[cfg(sqlparser_verif)]
+        let verif_start = self.index;
         let mut values = vec![];
         loop {
             values.push(f(self)?);
@@ -3466,6 +3468,8 @@ impl<'a> Parser<'a> {
                 break;
             }
         }
+        #[cfg(sqlparser_verif)]
+        verif_hooks::list_parsed(verif_start, self.index, values.len());
         Ok(values)
     }
 
@@ -12243,6 +12247,21 @@ pub mod verif_hooks {
     pub fn reset(limit: u64) {
         STEPS.with(|c| c.set(0));
         STEP_LIMIT.with(|c| c.set(limit));
+        LISTS.with(|l| l.borrow_mut().clear());
+    }
+
+    thread_local! {
+        static LISTS: std::cell::RefCell<Vec<(usize, usize, usize)>> = const { std::cell::RefCell::new(Vec::new()) };
+    }
+
+    /// Record one successful `parse_comma_separated`: token index range and element count.
+    pub fn list_parsed(start: usize, end: usize, n: usize) {
+        LISTS.with(|l| l.borrow_mut().push((start, end, n)));
+    }
+
+    /// Lists recorded since the last reset.
+    pub fn lists() -> Vec<(usize, usize, usize)> {
+        LISTS.with(|l| l.borrow().clone())
     }
 }
 
